@@ -42,6 +42,8 @@ func init() {
 			{Name: fmt.Sprintf("dialer-backoff-hist-D%d", d), Mode: "hist", Reset: kit.ResetGlobals, Cfg: vsched.Config{RandFree: true}, Body: func() { hist(d, false) },
 				NeedCounters: []string{"redial-after-refusal", "redial-after-loss", "delay-capped", "delay-reset-after-attach", "no-dial-after-close", "sync-failure-no-retry", "traffic-resumed", "delay-grew"}},
 			{Name: fmt.Sprintf("dialer-options-on-dialer-hist-D%d", d-1), Mode: "hist", Reset: kit.ResetGlobals, Cfg: vsched.Config{RandFree: true}, Body: func() { hist(d-1, true) }},
+			{Name: fmt.Sprintf("dialer-options-changed-mid-run-hist-D%d", d-1), Mode: "hist", Reset: kit.ResetGlobals, Cfg: vsched.Config{RandFree: true}, Body: func() { histTune(d-1, true, 1) },
+				NeedCounters: []string{"reconnect-option-changed-while-a-redial-is-owed", "redial-after-refusal", "redial-after-loss"}},
 			{Name: "dialer-protocol-refusal-then-takeover", Mode: "enum", Reset: kit.ResetGlobals, Cfg: vsched.Config{RandFree: true}, Body: protocolRefusal,
 				NeedCounters: []string{"redial-after-protocol-refusal", "took-over-after-first-peer-left"}},
 			{Name: "dialer-close-during-dial", Mode: "sched", Bound: map[string]int{"quick": 2, "thorough": 3}[tier], Reset: kit.ResetGlobals, Body: closeDuringDial},
@@ -57,6 +59,10 @@ func init() {
 }
 
 type world struct {
+	tune     int  // option changes an event of the history may still make
+	retuned  bool // reconnect options were changed after Dial
+	minEver  time.Duration // smallest ReconnectTime ever in force
+	maxEver  time.Duration // largest delay any setting ever allowed (0: some setting had no limit on growth... see below)
 	c        cfg
 	sock     mangos.Socket
 	d        mangos.Dialer
@@ -123,10 +129,22 @@ func (w *world) noteDials() {
 					ok = true
 				}
 			}
-			if gap < w.c.min {
+			if w.retuned {
+				// options were changed while the dialer ran: the exact back-off model no longer applies (when a
+				// new value takes effect is the implementation's business); what the property says still does:
+				// never sooner than the smallest reconnect time that was ever in force, never later than the
+				// largest delay any of the settings allowed
+				if gap < w.minEver {
+					kit.Failf("redial-too-soon", "attempt %d at %v only %v after the previous failure/loss at %v; the smallest ReconnectTime ever set is %v", w.ndials, r.At, gap, w.lastEnd, w.minEver)
+				}
+				if gap > w.maxEver {
+					kit.Failf("redial-beyond-max", "attempt %d came %v after the previous failure; no setting allowed more than %v", w.ndials, gap, w.maxEver)
+				}
+				ok = true
+			} else if gap < w.c.min {
 				kit.Failf("redial-too-soon", "attempt %d at %v only %v after the previous failure/loss at %v; ReconnectTime is %v", w.ndials, r.At, gap, w.lastEnd, w.c.min)
 			}
-			if w.c.max > 0 && gap > w.c.max && gap > w.c.min {
+			if !w.retuned && w.c.max > 0 && gap > w.c.max && gap > w.c.min {
 				kit.Failf("redial-beyond-max", "attempt %d came %v after the previous failure; MaxReconnectTime is %v", w.ndials, gap, w.c.max)
 			}
 			if !ok {
@@ -192,8 +210,14 @@ func (w *world) growAll() []time.Duration {
 // DialAsynch values - a zero maximum among them, which means "no growth" - are the ones in effect).
 func Hist(depth int, viaDialer bool) { hist(depth, viaDialer) }
 
-func hist(depth int, viaDialer bool) {
-	w := &world{c: cfgs[kit.ChooseFree(len(cfgs))]}
+func hist(depth int, viaDialer bool) { histTune(depth, viaDialer, 0) }
+
+// histTune: with tune > 0, ReconnectTime / MaxReconnectTime are changed by events of the history -
+// on the dialer or on the socket (which passes them on) - while the dialer is connected, waiting to
+// redial or closed.  A redial is still always scheduled, never sooner than the smallest reconnect
+// time ever set, traffic resumes, nothing happens after Close.
+func histTune(depth int, viaDialer bool, tune int) {
+	w := &world{c: cfgs[kit.ChooseFree(len(cfgs))], tune: tune}
 	s, err := xpub.NewSocket()
 	if err != nil {
 		kit.Failf("setup", "NewSocket: %v", err)
@@ -299,6 +323,64 @@ func hist(depth int, viaDialer bool) {
 					kit.Count("traffic-resumed")
 				}
 			}})
+		}
+		if w.tune > 0 && !w.closed && !w.gaveUp {
+			type ch struct {
+				opt  string
+				v    time.Duration
+				sock bool // set on the socket (which passes it on to its dialers) or on the dialer
+			}
+			for _, c := range []ch{{mangos.OptionMaxReconnectTime, 0, false}, {mangos.OptionMaxReconnectTime, 0, true}, {mangos.OptionMaxReconnectTime, w.c.min, true}, {mangos.OptionMaxReconnectTime, 8 * w.c.min, false},
+				{mangos.OptionReconnectTime, w.c.min / 2, true}, {mangos.OptionReconnectTime, 2 * w.c.min, false}} {
+				c := c
+				for _, onSock := range []bool{c.sock} {
+					onSock := onSock
+					evs = append(evs, kit.Event{Name: fmt.Sprintf("set:%s=%v:sock=%v", c.opt, c.v, onSock), Run: func() {
+						w.tune--
+						if !w.retuned {
+							w.retuned = true
+							w.minEver = w.c.min
+							w.maxEver = w.c.max
+							if w.c.max == 0 || w.c.max < w.c.min {
+								w.maxEver = w.c.min // no growth: the delay stays the reconnect time
+							}
+						}
+						var err error
+						kit.Must("SetOption", func() {
+							if onSock {
+								err = s.SetOption(c.opt, c.v)
+							} else {
+								err = w.d.SetOption(c.opt, c.v)
+							}
+						})
+						if err != nil {
+							kit.Failf("option-refused", "SetOption(%s, %v) on a running dialer / its socket: %s", c.opt, c.v, kit.ErrName(err))
+						}
+						if g, err := w.d.GetOption(c.opt); err != nil || g != c.v {
+							kit.Failf("option-not-passed-on", "dialer reports %s = %v (%s) after %v was set (on the socket: %v)", c.opt, g, kit.ErrName(err), c.v, onSock)
+						}
+						if c.opt == mangos.OptionReconnectTime {
+							if c.v < w.minEver {
+								w.minEver = c.v
+							}
+							if c.v > w.maxEver {
+								w.maxEver = c.v
+							}
+							w.c.min = c.v
+						} else {
+							if c.v > w.maxEver {
+								w.maxEver = c.v
+							}
+							w.c.max = c.v
+						}
+						if w.waiting {
+							kit.Count("reconnect-option-changed-while-a-redial-is-owed")
+						}
+						// whatever grows from here on grows from at most maxEver by at most 1.5x per failure
+						// only while a maximum is set, and is then capped by it
+					}})
+				}
+			}
 		}
 		if !w.closed {
 			evs = append(evs, kit.Event{Name: "close-dialer", Run: func() {
